@@ -60,16 +60,16 @@ func genC43(rt *rapid.T) *c43Scenario {
 		sc.Cfg.SkipBodyHash = rapid.Bool().Draw(rt, "skipBodyHash")
 	}
 	sc.Cfg.Buf = rapid.SampledFrom([]int{1, 2, 8, 64}).Draw(rt, "buffer")
-	if k := rapid.IntRange(0, 19).Draw(rt, "long"); k >= 14 {
-		sc.Long = []string{"decode", "validate", "apply"}[(k-14)/2]
+	if k := rapid.IntRange(0, 19).Draw(rt, "long"); k >= 12 {
+		sc.Long = []string{"decode", "decode", "decode", "validate", "validate", "validate", "apply", "apply"}[k-12]
 		if sc.Long == "validate" && sc.Cfg.ValidateW == 0 {
-			sc.Long = "decode"
+			sc.Cfg.ValidateW, sc.Cfg.SkipBodyHash = 1, true
 		}
 		// few workers: the worker next to the one holding the block is then seen
 		// taking further blocks, which confirms its hand-offs
 		sc.Cfg.DecodeW = rapid.SampledFrom([]int{2, 2, 1}).Draw(rt, "longDecodeWorkers")
 		if sc.Cfg.ValidateW > 0 {
-			sc.Cfg.ValidateW = rapid.SampledFrom([]int{2, 2, 1}).Draw(rt, "longValidateWorkers")
+			sc.Cfg.ValidateW = rapid.SampledFrom([]int{1, 1, 2}).Draw(rt, "longValidateWorkers")
 		}
 	}
 	id := 0
@@ -310,7 +310,7 @@ func (sc *c43Scenario) caseObj(w *world, drains []c43Drain) map[string]any {
 
 func TestC43(t *testing.T) {
 	rec := evi.New(t, "C43", evi.Exploration,
-		"one case = pipeline config (1..16 workers per stage, validation on/off, buffer 1..64) + 1..3 rounds of [1..6 blocks submitted, optional pause, WaitForDrain; optionally 1..3 more blocks submitted by another goroutine during the wait]; every block gets generated hold times (0, 0.1..5 ms, or 8..45 ms = longer than the 10 ms poll) inside its decode worker, validate worker and ApplyFunc; ~30% of the cases hold one block 450 ms in one place with 1..2 workers per stage and start the wait 200 ms late; non-trivial = a WaitForDrain returned nil in a round where a block submitted before the call was inside a worker or ApplyFunc while the wait was in progress; distinct by config+rounds")
+		"one case = pipeline config (1..16 workers per stage, validation on/off, buffer 1..64) + 1..3 rounds of [1..6 blocks submitted, optional pause, WaitForDrain; optionally 1..3 more blocks submitted by another goroutine during the wait]; every block gets generated hold times (0, 0.1..5 ms, or 8..45 ms = longer than the 10 ms poll) inside its decode worker, validate worker and ApplyFunc; ~35% of the cases hold one block 450 ms in one place with 1..2 workers per stage and start the wait 200 ms late; non-trivial = a WaitForDrain returned nil in a round where a block submitted before the call was inside a worker or ApplyFunc while the wait was in progress; distinct by config+rounds")
 	defer rec.Finish()
 	rec.Assume(
 		"a block counts as submitted before the wait iff its Submit returned before WaitForDrain was called (logical clock); the return instant is read right after WaitForDrain returns",
@@ -319,6 +319,10 @@ func TestC43(t *testing.T) {
 		"'decodes' / 'validates' are defined by direct calls of the ledger decoder / VerifyBlock",
 	)
 	rec.Check(func(rt *rapid.T) {
+		if rapid.IntRange(0, 5).Draw(rt, "mode") == 5 {
+			c43ClientCase(rec, rt)
+			return
+		}
 		sc := genC43(rt)
 		all := sc.allItems()
 		w := newWorld(sc.Cfg, all)
@@ -413,4 +417,34 @@ func TestC43(t *testing.T) {
 			rec.Fail(rt, f.key, f.what, sc.caseObj(w, drains))
 		}
 	})
+}
+
+// c43ClientCase: the same oracle, observed through the chain-sync client's
+// RollBackward handling (see c43_client_test.go).
+func c43ClientCase(rec *evi.Recorder, rt *rapid.T) {
+	sc := genC43Client(rt)
+	o := runC43Client(sc)
+	if o.err != "" {
+		rt.Fatalf("harness (chain-sync client mode): %s", o.err)
+	}
+	fs, rollbacks, heldDuring := judgeC43Client(sc, o)
+	rec.EvalN(rollbacks)
+	rec.Class("chainsync_client_case")
+	rec.ClassN("chainsync_rollbacks_judged", rollbacks)
+	rec.ClassN("chainsync_rollbacks_with_block_inside_worker_or_apply_during_wait", heldDuring)
+	if heldDuring > 0 {
+		var sb strings.Builder
+		fmt.Fprintf(&sb, "client;%s;limit=%d", sc.Cfg.String(), sc.PipelineLimit)
+		for _, ev := range sc.Script {
+			if ev.Back {
+				sb.WriteString(";B")
+			} else {
+				sb.WriteString(";F:" + ev.Item.desc(o.w.validate))
+			}
+		}
+		rec.NonTrivial(sb.String(), sc.caseObj(nil))
+	}
+	for _, f := range fs {
+		rec.Fail(rt, f.key, f.what, sc.caseObj(o))
+	}
 }
